@@ -162,6 +162,8 @@ func (b *Builder) ExportFunc(name string) *UnexportedFuncMocker {
 // Var 变量 mock, target 类型必须传递指针类型
 func (b *Builder) Var(v interface{}) VarMock {
 	cacheKey := fmt.Sprintf("var_%d", reflect.ValueOf(v).Pointer())
+	// a Pkg() override applies to the next lookup only, this one included
+	defer b.reset2CurPkg()
 	if mocker, ok := b.mockers[cacheKey]; ok && !mocker.Canceled() {
 		return mocker.(VarMock)
 	}
@@ -181,6 +183,8 @@ func (b *Builder) Var(v interface{}) VarMock {
 // Set(value)时, value类型必须和变量原值的类型一致，否则会出现不可预测的异常行为
 func (b *Builder) UnExportedVar(path string) UnExportedVarMock {
 	cacheKey := fmt.Sprintf("ue_var_%s", path)
+	// a Pkg() override applies to the next lookup only, this one included
+	defer b.reset2CurPkg()
 	if mocker, ok := b.mockers[cacheKey]; ok && !mocker.Canceled() {
 		return mocker.(UnExportedVarMock)
 	}
